@@ -236,7 +236,10 @@ pub fn oracle(case: &Case) -> Verdict {
                 let count = |hay: &[u8], needle: &[u8]| -> usize { if needle.is_empty() { 0 } else { hay.windows(needle.len()).filter(|w| *w == needle).count() } };
                 for s0 in spans0.iter().filter(|s| s.local) {
                     let sb = span_bytes(&b0, s0);
-                    if count(&hb, sb) < count(&b0, sb) {
+                    // (occurrences owed = identifier spans with exactly these bytes; counting the byte pattern in the input
+                    // instead would also count look-alikes that straddle an atom's text and the fields behind it)
+                    let owed = spans0.iter().filter(|s| s.local && span_bytes(&b0, s) == sb).count();
+                    if count(&hb, sb) < owed {
                         vfail!(
                             "identifier-bytes-changed",
                             "distribution-header encoder: node-local {} at path '{}' received as {} does not appear unchanged in {}",
@@ -280,7 +283,7 @@ pub fn oracle(case: &Case) -> Verdict {
                             Ok(b2) => {
                                 let count = |hay: &[u8], needle: &[u8]| -> usize { hay.windows(needle.len()).filter(|w| *w == needle).count() };
                                 for sb in &locals {
-                                    if count(&b2, sb) < count(body, sb) {
+                                    if count(&b2, sb) < locals.iter().filter(|x| *x == sb).count() {
                                         vfail!(
                                             "identifier-bytes-changed",
                                             "node-local identifier {} received in a distribution-header frame (behind control atoms taken from the atom cache) is not re-emitted unchanged: {}",
